@@ -503,6 +503,37 @@ def layout(seed, index):
     return "\n".join(lines + body) + "\n"
 
 
+def dense(seed, index):
+    """dense control flow: every block is labelled and ends in a random terminator over all labels (forward and backward),
+    so that diamonds, side exits, shared merge blocks and re-entered blocks are frequent; one or two subroutines of the
+    same kind follow the main code"""
+    r = random.Random(f"dense/{seed}/{index}")
+    def region(prefix, k, subs, closer):
+        labs = [f"{prefix}{i}" for i in range(k)]
+        out = []
+        for i, l in enumerate(labs):
+            out.append(f"{l}:")
+            out.append(r.choice(["int 1", "txn Fee\npop", "load 0\npop", "int 2\npop"]))
+            c = r.random()
+            tgt = lambda: r.choice(labs)
+            if c < 0.34: out.append(f"load {r.randrange(3)}\n{r.choice(['bz', 'bnz'])} {tgt()}")
+            elif c < 0.44: out.append(f"b {tgt()}")
+            elif c < 0.52: out.append(f"load 1\nswitch {' '.join(tgt() for _ in range(r.randrange(1, 4)))}")
+            elif c < 0.56: out.append(f"load 1\nload 2\nmatch {tgt()}")
+            elif c < 0.68 and subs: out.append(f"callsub {r.choice(subs)}")
+            elif c < 0.78: out.append(closer)
+            # else: fall through
+        out.append(closer)
+        return out
+    nsub = r.randrange(0, 3)
+    subs = [f"S{i}" for i in range(nsub)]
+    body = region("M", r.randrange(3, 8), subs, "int 1\nreturn")
+    for sname in subs:
+        body.append(f"{sname}:")
+        body += region(sname + "b", r.randrange(2, 6), subs if r.random() < 0.5 else [], "retsub")
+    return "#pragma version 8\n" + "\n".join(body) + "\n"
+
+
 if __name__ == "__main__":
     import sys
     s, t = fragment(int(sys.argv[1]) if len(sys.argv) > 1 else 0, int(sys.argv[2]) if len(sys.argv) > 2 else 0)
